@@ -216,7 +216,9 @@ def rule_gauge(model: Model):
         ok = False
         if calls:
             i, s = calls[0]
-            a = [norm(x) for x in s.value.args]
+            from ..model import bound_args
+            ba = bound_args(model.functions["torchtt._decomposition.rl_orthogonal"], s.value) or {}
+            a = [norm(x) for x in list(ba.values())[:3]] if len(ba) >= 3 else [norm(x) for x in s.value.args]
             first_loop = min([j for j, t in enumerate(f.node.body) if isinstance(t, (ast.While, ast.For, ast.If)) and
                               any(isinstance(x, (ast.While, ast.For)) for x in ast.walk(t))] or [10 ** 6])
             ok = a[:3] == [f"{arg}.cores", f"{arg}.R", f"{arg}.is_ttm"] and i < first_loop and isinstance(s.targets[0], ast.Tuple)
